@@ -2052,7 +2052,10 @@ def _apply_size_extension_constraint(
         # if other is not specified, extend to boundary of simulation volume
         other_anchor = slice_dict[volume_name][constraint.axis][dir_idx]
         if other_anchor is None:
-            raise Exception(f"This should never happen: Simulation volume not specified: {volume_name}")
+            # The volume bound is not known yet (e.g. it is itself set by a constraint that comes
+            # later in the list): like for any other reference object, retry in a later pass
+            # instead of failing depending on the order of the constraints.
+            return False, slice_dict
     # update position or check consistency
     old_val = slice_dict[obj_name][constraint.axis][dir_idx]
     if old_val is None:
